@@ -5,7 +5,8 @@
    decryptKeyV3/V1, getKDFKey, ensureInt, GetKey).  kdf (scrypt / PBKDF2), aes_ctr,
    aes_cbc_dec, H (Keccak-256) and pub_addr (key -> address) are universally
    quantified; what a theorem needs of them is one of its premises. *)
-From AQ Require Import Lib.Bytes Lib.Keccak Keystore.KeystoreModel Keystore.KeystoreProofs.
+From AQ Require Import Lib.Bytes Lib.Keccak Keystore.KeystoreModel Keystore.KeystoreProofs
+  Keystore.StoreModel Keystore.StoreProofs.
 Local Open Scope N_scope.
 
 (* 1. Round trip, for every key (any number of leading zero bytes: the key is
@@ -221,6 +222,72 @@ Example C20_history_example :
   = [true; false; true; false; true; true; false; true; true; true; false] /\
   wrong_passphrase (fst (ks_run ks_init [OCreate p; OTimedUnlock 0 p 0])) (OTimedUnlock 0 w 0).
 Proof. split; [vm_compute; reflexivity|]. exists 0%nat, [x62]. split; reflexivity. Qed.
+
+(* 5. The KeyStore on top of the file model (StoreModel.cstep: every passphrase operation runs get_key
+      - DecryptKey and the address comparison - on the key file the account has on disk; every writing
+      operation runs encrypt_key; ks.unlocked is keyed by address; tied to keystore.go by histories whose
+      key files are compared after every writing step).  Here the abstract `authenticates` of 4 is DERIVED. *)
+
+(* 5a. Any state, any file on disk: a passphrase operation whose passphrase does not open the account's
+       file returns an error (or panics) and leaves the whole state unchanged. *)
+Theorem C20_store_not_opened_no_change :
+  forall kdf aes_ctr aes_cbc_dec H pub_addr (n p : Z) (s : cstate) (op : cop) (i : nat) (pw : bytes),
+    cop_auth op = Some (i, pw) ->
+    (forall k a, get_decrypted_key kdf aes_ctr aes_cbc_dec H pub_addr s i pw <> Ok (k, a)) ->
+    exists r, cstep kdf aes_ctr aes_cbc_dec H pub_addr n p s op = (s, r, None) /\ r <> ROk.
+Proof. exact not_opened_no_change. Qed.
+Print Assumptions C20_store_not_opened_no_change.
+
+(* 5b. After ANY history of the KeyStore's own operations (create, unlock, lock, update, export, delete,
+       sign, wait) from the empty store, every account's file is one the KeyStore wrote under some
+       passphrase p0, and through getDecryptedKey: p0 opens it to the account's key and address (premise:
+       AES-CTR involution), and no passphrase the KDF separates from p0 on bytes 16..32 opens it (else a
+       Keccak collision).  Premise: key -> address is injective. *)
+Theorem C20_store_history_authenticates :
+  forall kdf aes_ctr aes_cbc_dec H pub_addr (n p : Z),
+    (forall k1 k2, pub_addr k1 = pub_addr k2 -> k1 = k2) ->
+    forall (ops : list cop) (i : nat) (a : cacct) (f : keyfile),
+    Forall (store_only) ops ->
+    let s := crun kdf aes_ctr aes_cbc_dec H pub_addr n p cs_init ops in
+    nth_error (cs_accts s) i = Some a -> c_file a = Some f ->
+    exists d p0 salt iv,
+      store_key kdf aes_ctr H n p d (c_addr a) (c_id a) p0 salt iv = Ok f /\
+      ((forall k j x y, aes_ctr k j x = POk y -> aes_ctr k j y = POk x) ->
+         get_decrypted_key kdf aes_ctr aes_cbc_dec H pub_addr s i p0 = Ok (padded_big_bytes 32 d, c_addr a)) /\
+      (forall p' dk dk' mk mk',
+         kdf (KScrypt n 8 p) p0 salt 32%Z = POk dk -> slice 16 32 dk = Some mk ->
+         kdf (KScrypt n 8 p) p' salt 32%Z = POk dk' -> slice 16 32 dk' = Some mk' -> mk' <> mk ->
+         get_decrypted_key kdf aes_ctr aes_cbc_dec H pub_addr s i p' = Err \/
+         exists ct, collision H (mk' ++ ct) (mk ++ ct)).
+Proof. exact store_history_authenticates. Qed.
+Print Assumptions C20_store_history_authenticates.
+
+(* 5c. For EVERY history - key files replaced from outside and foreign files imported included - an
+       unlocked entry holds a key whose address is the account's: a KeyStore account never signs with
+       another key. *)
+Theorem C20_unlocked_key_is_the_accounts :
+  forall kdf aes_ctr aes_cbc_dec H pub_addr (n p : Z) (ops : list cop) (s : cstate),
+    Forall (unlocked_key_ok pub_addr) (cs_accts s) ->
+    Forall (unlocked_key_ok pub_addr) (cs_accts (crun kdf aes_ctr aes_cbc_dec H pub_addr n p s ops)).
+Proof. exact unlocked_key_is_the_accounts. Qed.
+Print Assumptions C20_unlocked_key_is_the_accounts.
+
+(* non-vacuity: the recorded file as the result of creating an account in the concrete model, then a
+   wrong and a right unlock, signing, the file replaced by its IV-tampered twin, and a refused unlock *)
+Example C20_store_example :
+  let step := cstep w_kdf w_ctr w_cbc keccak256 w_addr 2 1 in
+  let d := N_of_be (fst (match w_decrypt w_file w_pass with Ok x => x | _ => ([], []) end)) in
+  let id := match kf_id w_file with JStr s => s | _ => [] end in
+  let iv := match hex_decode (match kf_iv w_file with JStr s => s | _ => [] end) with Some b => b | None => [] end in
+  let '(s1, r1, f1) := step cs_init (CCreate d id w_pass w_salt iv) in
+  let '(s2, r2, _) := step s1 (CTimedUnlock 0 [x61] 0) in
+  let '(s3, r3, _) := step s2 (CTimedUnlock 0 w_pass 0) in
+  let '(s4, r4, _) := step s3 (CSign 0) in
+  let '(s5, r5, _) := step s4 (CLock 0) in
+  let '(s6, r6, _) := step s5 (CPutFile 0 w_file_iv) in
+  let '(s7, r7, _) := step s6 (CTimedUnlock 0 w_pass 0) in
+  f1 = Some w_file /\ (r1, r2, r3, r4, r5, r6, r7) = (ROk, RErr, ROk, ROk, ROk, ROk, RErr) /\ s2 = s1 /\ s7 = s6.
+Proof. vm_compute. repeat split. Qed.
 
 (* Non-vacuity: the recorded file is what the model's EncryptKey produces from
    the recorded primitive answers (so the hypotheses of 1-3 are met by a real
